@@ -63,9 +63,8 @@ func c04EscapeName(name, mode string) string {
 	return sb.String()
 }
 
-// c04LoneSurrogates: off until the repair of the unpaired-surrogate defect is committed (the round-6
-// evaluation runs against the unrepaired tree)
-const c04LoneSurrogates = false
+// c04LoneSurrogates: key names spelled with escapes of unpaired surrogates (see c04EscapeName)
+const c04LoneSurrogates = true
 
 var c04Stripped = []string{"outlier", "destinations", "age_ts", "unsigned"}
 
